@@ -195,6 +195,15 @@ func runC14(c *runCtx) {
 				par = extNames[r.Intn(len(extNames))]
 			}
 			name := fmt.Sprintf("application/x-verif-%d-%d", h, i)
+			if len(extNames) > 0 && r.Intn(5) == 0 {
+				name = extNames[r.Intn(len(extNames))] // the same name registered again
+			}
+			if h%6 == 5 && len(extNames) > 0 {
+				par = extNames[len(extNames)-1] // a chain: each extension under the previous one
+			}
+			if h%6 == 5 && len(extNames) == 0 {
+				par = []string{"application/geo+json", "application/json", "application/vnd.oasis.opendocument.text-template"}[r.Intn(3)]
+			}
 			var pred predSpec
 			switch r.Intn(6) {
 			case 0:
@@ -207,6 +216,9 @@ func runC14(c *runCtx) {
 				pred = predSpec{"byteat", []byte{"{%<Pa\x89h"[r.Intn(7)]}, r.Intn(3)}
 			default:
 				pb := probeBase[1+r.Intn(len(probeBase)-1)]
+				if h%6 == 5 {
+					pb = probeBase[3] // the geojson probe reaches application/geo+json: every link of the chain accepts it
+				}
 				k := 1 + r.Intn(4)
 				if k > len(pb) {
 					k = len(pb)
